@@ -552,8 +552,14 @@ def run_property(modname, tier, seed):
                 if what is not None:
                     failures.append({"site": site, "input": proto.jsonable(inp), "what": what})
     if getattr(mod, "CORRESPONDENCE_IS_PROPERTY", False):
-        # the property *is* "code = executable definition": a disagreement is itself the failing input
+        # the property *is* "code = executable definition": a disagreement is itself the failing input.  Not so for the
+        # gen_* suites (REGENERATED definitions vs the code): they tie the translator's output to the code; when they
+        # disagree (a generated file that no longer compiles leaves a stale driver, a reading of the run-time library is
+        # off) the tie is broken - reported as such - but only the hand-written definition's suites or the oracle
+        # exhibit a failing input
         for d in disagreements:
+            if str(d.get("suite", "")).startswith("gen_"):
+                continue
             failures.append({"site": "correspondence", "input": {"locator": d["locator"], "op": d["op"], "args": d["args"],
                                                                  "model": d["model"], "impl": d["impl"]},
                              "what": "%s %s: code differs from the executable definition: %s" % (d["suite"], d["op"], d["diff"])})
